@@ -6,9 +6,9 @@ package main
 //   udesc <decls> | <Top>         the descriptor getStructDesc computes (through the VerifStructDesc hook)
 //   uenc  <decls> | <value>       Encode
 //   udec  <decls> | <Top> <hex>   Decode of valid, truncated and mutated encodings
-// Unsupported field types, unknown tag names and other descriptor errors occur in the top structure (the library rejects
-// the type up front) and, since the elaboration of Fields.v became lazy about them, in nested structure types too (the
-// library finds out only when a value reaches the field: the model marks such a position as one no value can occupy).
+// Unsupported field types, unknown tag names and other descriptor errors are placed in the TOP structure only: the
+// library discovers a bad nested structure type lazily (when a value reaches it), the elaborated schema of the model is
+// eager - an approximation that is harmless for the library's own types and is kept out of the generated cases.
 
 import (
 	"fmt"
@@ -89,8 +89,14 @@ func (g *umGen) structType(depth int, bad bool, defs map[string]bool) reflect.Ty
 		if bad && g.r.Intn(12) == 0 {
 			name = "NO_SUCH_TAG"
 		}
-		fields = append(fields, reflect.StructField{Name: "T", Type: tTag, Tag: reflect.StructTag(fmt.Sprintf(`kmip:"%s"`, name))})
-		ftext = append(ftext, "T=tag="+name)
+		// the structure's own Tag field: exported, or (every fifth) unexported - its annotation names the tag either way
+		if g.r.Intn(5) == 0 {
+			fields = append(fields, reflect.StructField{Name: "t", PkgPath: "main", Type: tTag, Tag: reflect.StructTag(fmt.Sprintf(`kmip:"%s"`, name))})
+			ftext = append(ftext, ".t=tag="+name)
+		} else {
+			fields = append(fields, reflect.StructField{Name: "T", Type: tTag, Tag: reflect.StructTag(fmt.Sprintf(`kmip:"%s"`, name))})
+			ftext = append(ftext, "T=tag="+name)
+		}
 	}
 	n := 1 + g.r.Intn(5)
 	for i := 0; i < n; i++ {
@@ -136,11 +142,16 @@ func (g *umGen) structType(depth int, bad bool, defs map[string]bool) reflect.Ty
 			ann = ",required" // no tag name: the field is ignored
 		}
 		sf := reflect.StructField{Name: fmt.Sprintf("F%d", i), Type: ft}
+		fname := sf.Name
+		if g.r.Intn(12) == 0 { // an unexported field, annotated or not, is ignored by the library
+			sf.Name, sf.PkgPath = fmt.Sprintf("f%d", i), "main"
+			fname = "." + sf.Name
+		}
 		if ann != "~" {
 			sf.Tag = reflect.StructTag(fmt.Sprintf(`kmip:"%s"`, ann))
 		}
 		fields = append(fields, sf)
-		ftext = append(ftext, fmt.Sprintf("F%d=%s=%s", i, g.gtyText(ft, defs), ann))
+		ftext = append(ftext, fmt.Sprintf("%s=%s=%s", fname, g.gtyText(ft, defs), ann))
 	}
 	t := reflect.StructOf(fields)
 	if _, known := anonNames[t]; !known {
